@@ -158,6 +158,73 @@ fn try_g(prop: &str, g: G, ctx: &mut Ctx) -> Option<J> {
     }
 }
 
+/// Structured inputs for the four-times-unrolled relaxation loop and for
+/// large weights:
+///  * reversed paths n-1 -> n-2 -> ... -> 0 (arcs_weighted lists them in the
+///    opposite order of propagation, so each pass has exactly ONE improving
+///    arc, sitting at position n-1-k of the arc list in pass k: every
+///    position modulo 4, for arc counts of every residue modulo 4), with and
+///    without filler arcs that never improve;
+///  * an arc whose tail is unreachable listed before a relaxable arc;
+///  * a negative first leg (0->1:-1, 1->2:5, 0->2:5);
+///  * weights near isize::MAX / 2 whose path sums still fit.
+fn structured_sp() -> Vec<G> {
+    let mut out = Vec::new();
+    for n in 2..=9usize {
+        for variant in 0..4 {
+            let mut g = G::new(n);
+            for v in 1..n {
+                let w = match variant {
+                    0 => 1,
+                    1 => -1,
+                    2 => [2, -3, 5, 0][v % 4],
+                    _ => 5,
+                };
+                let _ = g.arcs.insert((v, v - 1), w);
+            }
+            if variant == 3 {
+                // fillers that never improve anything (expensive shortcuts)
+                for v in 2..n {
+                    let _ = g.arcs.insert((v, 0), 5 * n as i64);
+                }
+            }
+            out.push(g);
+        }
+        // vertex 0 is an unreachable tail whose arcs are listed first
+        let mut g = G::new(n + 1);
+        for v in 1..=n {
+            let _ = g.arcs.insert((0, v), -3);
+        }
+        for v in 2..=n {
+            let _ = g.arcs.insert((v, v - 1), 1);
+        }
+        out.push(g);
+    }
+    // negative first leg
+    let mut g = G::new(3);
+    for (u, v, w) in [(0, 1, -1), (1, 2, 5), (0, 2, 5)] {
+        let _ = g.arcs.insert((u, v), w);
+    }
+    out.push(g);
+    // weights near isize::MAX / 2 whose path sums still fit
+    let b = i64::MAX / 2 - 10;
+    for arcs in [
+        vec![(0, 1, b), (1, 2, b), (0, 2, i64::MAX - 5)],
+        vec![(0, 1, b), (1, 2, 5), (0, 2, b + 3)],
+        vec![(0, 1, -b), (1, 2, -b), (2, 0, 2 * b + 1)],
+        vec![(0, 1, b), (1, 2, -b), (2, 3, b), (0, 3, b + 1)],
+        vec![(2, 1, b), (1, 0, b), (2, 0, i64::MAX - 1)],
+    ] {
+        let n = arcs.iter().map(|a| a.0.max(a.1) + 1).max().unwrap();
+        let mut g = G::new(n);
+        for (u, v, w) in arcs {
+            let _ = g.arcs.insert((u, v), w);
+        }
+        out.push(g);
+    }
+    out
+}
+
 pub fn search(prop: &str, seed: u64, ctx: &mut Ctx) -> Option<J> {
     let mut rng = Rng::new(seed);
     // exhaustive: orders 1..3, every arc subset, every weight assignment
@@ -171,6 +238,11 @@ pub fn search(prop: &str, seed: u64, ctx: &mut Ctx) -> Option<J> {
             if code % 4096 == 0 && ctx.expired() {
                 return None;
             }
+        }
+    }
+    for g in structured_sp() {
+        if let Some(f) = try_g(prop, g, ctx) {
+            return Some(f);
         }
     }
     // seeded random: order 4 (sometimes 5), arc counts cycling through
@@ -197,8 +269,7 @@ pub fn replay(prop: &str, j: &J) -> Result<Option<J>, String> {
     if g.order() > 9 {
         return Err("the brute-force oracle enumerates simple paths: order <= 9".into());
     }
-    let total: i128 = g.arcs.values().map(|&w| (w as i128).abs()).sum();
-    if total > i64::MAX as i128 / 4 {
+    if largest_path_sum(&g) > isize::MAX as i128 {
         return Err("path sums must fit in isize".into());
     }
     if prop == "C07" {
